@@ -539,7 +539,7 @@ def _norm_api(cont, fs):
         return [(n, v, False) for n, v in sp]
     for s in fs:
         k, n, v = s.split(':')
-        sens = k[0] == 'N' or (k[0] == '3' and k[1] == 't')
+        sens = k[0] in 'NS' or (k[0] == '3' and k[1] in 't1')
         out.append((unhex(n), unhex(v), sens))
     return out
 
